@@ -152,6 +152,20 @@ Theorem C08_range_constructor_precondition (S : Scalar) n m (ptr col : list nat)
   crs_of_ranges n m ptr col val = None.
 Proof. exact (PwCopy.crs_of_ranges_precond n m ptr col val). Qed.
 
+(* adapter::block_matrix -> crs<static_matrix<V,b,b>> (any S): shapes, in-range block columns, every
+   stored block is b x b; the iterator of the model never stops for lack of fuel *)
+Theorem C08_block_matrix_wf (S : Scalar) (A : crs S) bs (B : bcrs) :
+  wf A = true -> block_matrix A bs = Some B ->
+  length (brows B) = (nrows A / bs)%nat /\ bncols B = (ncols A / bs)%nat /\
+  Forall (Forall (fun cb : nat * blk => (fst cb < bncols B)%nat /\ length (snd cb) = bs /\
+                                        Forall (fun v => length v = bs) (snd cb))) (brows B).
+Proof. exact (Blk.block_matrix_wf A bs B). Qed.
+Print Assumptions C08_block_matrix_wf.
+
+Theorem C08_block_matrix_fuel_sufficient (S : Scalar) bs (js : list (row S)) k : (0 < bs)%nat ->
+  bm_block_row bs js = bm_loop (pw_fuel js + k)%nat bs js.
+Proof. exact (Blk.bm_block_row_fuel bs js k). Qed.
+
 (* ================================================================== *)
 (* 2. Dense characterisations (commutative ring)                       *)
 Section Ring.
@@ -217,6 +231,27 @@ Theorem C08_diagonal_dense (r : row S) i :
 Proof.
   exact (conj (fun d => first_col_some_dense Srt r i d)
         (conj (first_col_none_dense Srt r i) (fun d => first_col_some_split Srt r i d))).
+Qed.
+(* scalar -> block conversion: the stored blocks are exactly the blocks of A that contain a stored
+   entry, in increasing block-column order, and block (I,J) holds the dense b x b values of A
+   (0 at positions A does not store) -- for rows sorted by column without duplicates (the
+   iterator OVERWRITES, it does not add) and sizes divisible by the block size *)
+Theorem C08_block_matrix_spec (A : crs S) bs :
+  bs <> 0%nat -> (nrows A / bs * bs)%nat = nrows A -> (ncols A / bs * bs)%nat = ncols A ->
+  forallb sorted_strict (rows A) = true -> wf A = true ->
+  block_matrix A bs = Some (block_spec A bs).
+Proof. exact (Blk.block_matrix_spec Srt A bs). Qed.
+
+(* unblock (block A) = A densely *)
+Theorem C08_unblock_block_dense (A : crs S) bs (B : bcrs) i j :
+  forallb sorted_strict (rows A) = true -> wf A = true -> block_matrix A bs = Some B ->
+  i < nrows A -> j < ncols A ->
+  mget (unblock_matrix bs B) i j = mget A i j /\
+  nrows (unblock_matrix bs B) = (length (brows B) * bs)%nat /\ ncols (unblock_matrix bs B) = (bncols B * bs)%nat.
+Proof.
+  intros H1 H2 H3 Hi Hj.
+  exact (conj (Blk.unblock_block_dense Srt A bs B i j H1 H2 H3 Hi Hj)
+              (conj (Blk.unblock_nrows bs B) (Blk.unblock_ncols bs B))).
 Qed.
 End Ring.
 
@@ -349,6 +384,13 @@ Theorem C08_product_dense_all_thread_counts_Qc (nt : nat) (A B : crs QcS) (sort 
   mget (product nt A B sort) i j = sumn (fun k => mget A i k * mget B k j) (ncols A).
 Proof. exact (C08_product_dense_all_thread_counts QcS QcS_ring nt A B sort i j). Qed.
 Print Assumptions C08_product_dense_all_thread_counts_Qc.
+
+Theorem C08_block_matrix_spec_Qc (A : crs QcS) bs :
+  bs <> 0%nat -> (nrows A / bs * bs)%nat = nrows A -> (ncols A / bs * bs)%nat = ncols A ->
+  forallb sorted_strict (rows A) = true -> wf A = true ->
+  block_matrix A bs = Some (block_spec A bs).
+Proof. exact (C08_block_matrix_spec QcS QcS_ring A bs). Qed.
+Print Assumptions C08_block_matrix_spec_Qc.
 
 Theorem C08_transpose_dense_Qc (A : crs QcS) i j : j < ncols A ->
   mget (transpose A) j i = mget A i j.
